@@ -77,7 +77,8 @@ Lemma scale_int f z : core_fmt f -> core_int f z ->
   exists s, scale_elem f false true (NI z) = Ok s /\
     match s with
     | NI c => 0 <= nf f /\ c = z * 2^(nf f)
-    | NF x => nf f < 0 /\ x = Fin z (nf f) end.
+    | NF x => nf f < 0 /\ x = Fin z (nf f)
+    | NR _ => False end.
 Proof.
   intros Hf Hz. pose proof (core_int_dy f z Hf Hz) as Hd.
   destruct Hf as (Hw & Hf). destruct Hz as (Hz & Hs).
@@ -215,7 +216,7 @@ Proof.
   pose proof (rounded_bound f r (dy_of_Z z) Hf Hd) as Hq. unfold dy_scale, dy_of_Z in Hq. cbn [dm de] in Hq.
   replace (0 + nf f) with (nf f) in Hq by lia.
   pose proof Hf as (Hw & Hfr).
-  destruct s as [c|x].
+  destruct s as [c|x|q]; [| |contradiction].
   - destruct Hshape as (Hn & ->). cbn [round_elem].
     rewrite overflow_elem_int by exact Hw. cbn [bind]. unfold spec_eres.
     assert (Hr: round_dy r (dy_scale (nf f) (dy_of_Z z)) = z * 2^(nf f)).
@@ -263,16 +264,80 @@ Proof. induction 1 as [|x l Hx _ IH]; [reflexivity|]. cbn [existsb]. rewrite Hx,
 
 Definition f64_of_core (v : dy) : f64 := Fin (dm v) (de v).
 
+(* ---- the `_use_pyint` decision and the exact-rational factor, case by case ---- *)
+Lemma exact_factor_raw f a : exact_factor f true a = false.
+Proof. unfold exact_factor. cbn [negb]. rewrite !andb_false_r. reflexivity. Qed.
+Lemma exact_factor_AF64 f raw l : exact_factor f raw (AF64 l) = false.
+Proof. unfold exact_factor. cbn [arr_has_frac arr_is_int negb andb]. reflexivity. Qed.
+Lemma exact_factor_nf f raw a : 0 <= nf f -> exact_factor f raw a = false.
+Proof. intros H. unfold exact_factor. replace (nf f <? 0) with false by lia. rewrite andb_false_r. reflexivity. Qed.
+Lemma exact_factor_small f raw a : arr_absmax_ge a (2^53) = false -> exact_factor f raw a = false.
+Proof. intros H. unfold exact_factor. rewrite H, andb_false_r. reflexivity. Qed.
+Lemma absmax_AI64 l b : arr_absmax_ge (AI64 l) b = existsb (fun z => b <=? Z.abs z) l.
+Proof. unfold arr_absmax_ge. cbn [arr_nums]. rewrite existsb_map. reflexivity. Qed.
+Lemma absmax_AU64 l b : arr_absmax_ge (AU64 l) b = existsb (fun z => b <=? Z.abs z) l.
+Proof. unfold arr_absmax_ge. cbn [arr_nums]. rewrite existsb_map. reflexivity. Qed.
+Lemma absmax_small_ints l b : Forall (fun z => Z.abs z < b) l -> existsb (fun z => b <=? Z.abs z) l = false.
+Proof. intros H. apply existsb_false. eapply Forall_impl; [|exact H]. intros z Hz. cbv beta in *. lia. Qed.
+
+Lemma obj_path_AF64 f raw l vd : obj_path f raw (AF64 l) vd = existsb num_big64 (map NF l) || (64 <=? nw f).
+Proof.
+  unfold obj_path. rewrite exact_factor_AF64. cbn [arr_nums arr_has_frac arr_is_int andb].
+  destruct (conv_factor_int f raw); rewrite !orb_false_r; reflexivity.
+Qed.
+(* integer arrays cast to an integer value type: the old decision, plus the exact factor *)
+Lemma obj_path_AI64_int f raw l : obj_path f raw (AI64 l) VInt =
+  existsb num_big64 (map NI l) || (64 <=? nw f) ||
+  match conv_factor_int f raw with Some k => (2^63 <=? k) || existsb (fun z => 2^63 <=? Z.abs z * k) l | None => false end ||
+  exact_factor f raw (AI64 l).
+Proof.
+  unfold obj_path. cbn [arr_nums arr_has_frac arr_is_int vdt_is_int negb andb].
+  destruct (conv_factor_int f raw); rewrite ?orb_false_r; reflexivity.
+Qed.
+(* any value type, but no integer of more than 53 bits *)
+Lemma obj_path_AI64_small f raw l vd : existsb (fun z => 2^53 <=? Z.abs z) l = false -> obj_path f raw (AI64 l) vd =
+  existsb num_big64 (map NI l) || (64 <=? nw f) ||
+  match conv_factor_int f raw with Some k => (2^63 <=? k) || existsb (fun z => 2^63 <=? Z.abs z * k) l | None => false end.
+Proof.
+  intros H. unfold obj_path. rewrite (exact_factor_small f raw (AI64 l)) by (rewrite absmax_AI64; exact H).
+  cbn [arr_nums arr_has_frac arr_is_int andb]. rewrite absmax_AI64, H.
+  destruct (conv_factor_int f raw); rewrite ?andb_false_r, ?orb_false_r; reflexivity.
+Qed.
+Lemma obj_path_AU64_raw f l vd : obj_path f true (AU64 l) vd = existsb num_big64 (map NI l) || (64 <=? nw f).
+Proof.
+  unfold obj_path. rewrite exact_factor_raw. unfold conv_factor_int. cbn [arr_nums arr_has_frac negb andb].
+  rewrite !orb_false_r. reflexivity.
+Qed.
+Lemma obj_path_AObj_ints_raw f l : obj_path f true (AObj (map NI l)) VInt =
+  existsb num_big64 (map NI l) || (64 <=? nw f) || ((2^63 <=? 1) || existsb (fun x => 2^63 <=? num_abs_int x * 1) (map NI l)).
+Proof.
+  unfold obj_path. rewrite exact_factor_raw. unfold conv_factor_int. cbn [arr_nums vdt_is_int negb andb].
+  assert (Hi: arr_is_int (AObj (map NI l)) = true).
+  { cbn [arr_is_int]. rewrite forallb_forall. intros x Hx. apply in_map_iff in Hx. destruct Hx as (z & <- & _). reflexivity. }
+  assert (Hf: arr_has_frac (AObj (map NI l)) = false).
+  { cbn [arr_has_frac]. rewrite existsb_map. apply existsb_false. apply Forall_forall. intros z _. reflexivity. }
+  rewrite Hi, Hf. cbn [andb]. rewrite !orb_false_r. reflexivity.
+Qed.
+
+(* set_val_real once the two decisions are known *)
+Lemma set_val_real_eq f r o raw a vd b : obj_path f raw a vd = b -> exact_factor f raw a = false ->
+  set_val_real f r o raw a vd =
+  bind (if b then Ok (arr_nums a) else astype_vd a vd) (fun vals =>
+  bind (mapM (elem_pipe f r o raw b) vals) (fun rs =>
+  Ok {| w_codes := map e_code rs; w_ovf := existsb e_gt rs; w_unf := existsb e_lt rs;
+        w_inacc := existsb e_inacc rs |})).
+Proof. intros Hb Hx. unfold set_val_real. rewrite Hb, Hx. reflexivity. Qed.
+
 Theorem set_val_floats_core f r o vs : core_fmt f -> Forall (core_dy f) vs ->
   set_val_real f r o false (AF64 (map f64_of_core vs)) VFloat = Ok (spec_wres f r o vs).
 Proof.
-  intros Hf Hvs. unfold set_val_real.
-  assert (Hobj: obj_path f false (AF64 (map f64_of_core vs)) = false).
-  { unfold obj_path. cbn [arr_nums]. rewrite map_map. rewrite existsb_map.
+  intros Hf Hvs.
+  assert (Hobj: obj_path f false (AF64 (map f64_of_core vs)) VFloat = false).
+  { rewrite obj_path_AF64. rewrite map_map. rewrite existsb_map.
     rewrite existsb_false.
-    - destruct (conv_factor_int f false); destruct Hf; cbn [orb]; lia.
+    - destruct Hf; cbn [orb]; lia.
     - eapply Forall_impl; [|exact Hvs]. intros v Hv. apply (not_big_float f v Hf Hv). }
-  rewrite Hobj. cbn [astype_vd bind]. rewrite map_map.
+  rewrite (set_val_real_eq _ _ _ _ _ _ _ Hobj (exact_factor_AF64 _ _ _)). cbn [astype_vd bind]. rewrite map_map.
   rewrite (mapM_Forall2 _ (spec_eres f r o) _ vs).
   - cbn [bind]. unfold spec_wres. rewrite !map_map, !existsb_map. reflexivity.
   - clear Hobj. induction Hvs as [|v vs Hv _ IH]; cbn [map]; [constructor|].
@@ -282,9 +347,11 @@ Qed.
 Theorem set_val_ints_core f r o zs : core_fmt f -> Forall (core_int f) zs ->
   set_val_real f r o false (AI64 zs) VInt = Ok (spec_wres f r o (map dy_of_Z zs)).
 Proof.
-  intros Hf Hzs. unfold set_val_real.
-  assert (Hobj: obj_path f false (AI64 zs) = false).
-  { unfold obj_path. cbn [arr_nums]. rewrite existsb_map.
+  intros Hf Hzs.
+  assert (Hsm: existsb (fun z => 2^53 <=? Z.abs z) zs = false).
+  { apply absmax_small_ints. eapply Forall_impl; [|exact Hzs]. intros z (Hz1 & _). exact Hz1. }
+  assert (Hobj: obj_path f false (AI64 zs) VInt = false).
+  { rewrite (obj_path_AI64_small _ _ _ _ Hsm). rewrite existsb_map.
     rewrite existsb_false; [|eapply Forall_impl; [|exact Hzs]; intros z Hz; apply (not_big_int f z Hz)].
     replace (64 <=? nw f) with false by (destruct Hf; lia). cbn [orb].
     unfold conv_factor_int. destruct (0 <=? nf f) eqn:E; [|reflexivity].
@@ -292,10 +359,10 @@ Proof.
     replace (2^63 <=? 2^(nf f)) with false by lia. cbn [orb].
     apply existsb_false. eapply Forall_impl; [|exact Hzs]. intros z (Hz1 & Hz2).
     assert (2^62 < 2^63) by (apply pow2_lt; lia). specialize (Hz2 ltac:(lia)). lia. }
-  rewrite Hobj. cbn [astype_vd bind].
+  rewrite (set_val_real_eq _ _ _ _ _ _ _ Hobj (exact_factor_small _ _ _ ltac:(rewrite absmax_AI64; exact Hsm))). cbn [astype_vd bind].
   rewrite (mapM_Forall2 _ (spec_eres f r o) _ (map dy_of_Z zs)).
   - cbn [bind]. unfold spec_wres. rewrite !map_map, !existsb_map. reflexivity.
-  - clear Hobj. induction Hzs as [|z zs Hz _ IH]; cbn [map]; [constructor|].
+  - clear Hobj Hsm. induction Hzs as [|z zs Hz _ IH]; cbn [map]; [constructor|].
     constructor; [|exact IH]. apply elem_pipe_int; assumption.
 Qed.
 
